@@ -29,7 +29,12 @@ LEVEL = "exploration"
 
 FAILS = ("desc_int", "config_bogus", "trs_from_bad_ns", "tract_bad_trs",
          "sort_bad_key", "tractlist_str", "config_type", "dup_method",
-         "from_dict_bad")
+         "from_dict_bad",
+         # calls that fail *late*, after a good deal of work was done
+         "config_good_then_bogus", "desc_config_good_then_bogus",
+         "desc_deep_depth_type", "desc_bad_default_ns_kw",
+         "tract_parse_bad_depth", "parse_tracts_bad_kw", "csv_bad_fp",
+         "set_twprgesec_bad_ew")
 
 
 # --------------------------------------------------------------------------
@@ -106,6 +111,27 @@ def gen_probe_op(rng, trs_pool=None):
             "scramble": rng.choice(("s.rev", "t.sn,r.ew", "s,r,t"))}
 
 
+def _perturb(rng, op):
+    """Same text / strings as ``op`` but other settings (config, keywords)."""
+    op = copy.deepcopy(op)
+    if "config" in op:
+        op["config"] = opgen.gen_config_text(rng, hi=3, none_ok=False)
+    for key, names in (("kw", ("parse_qq",)), ("pkw", ("parse_qq", "ocr_scrub",
+                                                      "default_ns", "clean_qq",
+                                                      "segment"))):
+        if key in op and op["p"] in ("desc", "desc_wait", "tract"):
+            op[key] = opgen.gen_kw(rng, names, 0, 2)
+    if op["p"] == "find_twprge":
+        op["kw"] = rng.choice(({}, {"preprocess": True},
+                               {"preprocess": True, "ocr_scrub": True},
+                               {"default_ns": "s", "default_ew": "e",
+                                "preprocess": True}))
+    if op["p"] in ("tract_from", "trs_from", "tract_set"):
+        op["kw"] = rng.choice(({}, {"default_ns": "s"}, {"default_ew": "e"},
+                               {"default_ns": "s", "default_ew": "e"}))
+    return op
+
+
 def probe_trs_strings(probe):
     """TRS keys the probe will look up (for pre-warming)."""
     out = []
@@ -131,8 +157,16 @@ def gen_plan(rng):
         k = rng.choice(kinds)
         if k == "other":
             # other texts, but sometimes the probe's own call (same text)
-            if rng.random() < 0.2:
+            r_ = rng.random()
+            if r_ < 0.18:
                 prior.append({"o": "other", "probe": copy.deepcopy(rng.choice(probe))})
+            elif r_ < 0.36:
+                # the probe's own text / strings under OTHER settings
+                prior.append({"o": "other",
+                              "probe": _perturb(rng, rng.choice(probe))})
+            elif r_ < 0.39:
+                prior.append({"o": "bulk", "n": rng.choice((200, 1200, 3000)),
+                              "kind": rng.choice(("trs", "tract"))})
             else:
                 prior.append({"o": "other", "probe": gen_probe_op(rng, trs_pool)})
         elif k == "prewarm":
@@ -353,6 +387,25 @@ def _extract_record(pytrs, src, how):
     return None
 
 
+def _mutate_config_of(pytrs, src, how):
+    """A caller editing the Config object an earlier object handed out."""
+    cfgs = []
+    if isinstance(src, (pytrs.PLSSDesc, pytrs.Tract)):
+        cfgs.append(src.config)
+    if isinstance(src, pytrs.PLSSDesc):
+        cfgs += [t.config for t in list(src.tracts)[:2]]
+    if isinstance(src, pytrs.TractList):
+        cfgs += [t.config for t in list(src)[:2]]
+    for c in cfgs:
+        if isinstance(c, pytrs.Config):
+            c.qq_depth = 1
+            c.clean_qq = True
+            c.default_ns, c.default_ew = "s", "e"
+            c.layout = "copy_all"
+            c.parse_qq = bool(how % 2)
+    return len(cfgs)
+
+
 def _do_fail(pytrs, what):
     if what == "desc_int":
         pytrs.PLSSDesc(123)
@@ -372,6 +425,29 @@ def _do_fail(pytrs, what):
         pytrs.TractList().filter_duplicates(method="nope")
     elif what == "from_dict_bad":
         pytrs.Config.from_dict({"clean_qq": "yes"})
+    elif what == "config_good_then_bogus":
+        pytrs.Config("s,e,qq_depth_min.3,clean_qq,seg_ment")
+    elif what == "desc_config_good_then_bogus":
+        pytrs.PLSSDesc("T154-R97 Sec 14: NE/4",
+                       config="s;e;parse_qq;qq_depth.1;ocr_scrub;bogus.2")
+    elif what == "desc_deep_depth_type":
+        pytrs.PLSSDesc("T154-R97 Sec 14: N/2NE/4, Lots 1, 1\nSec 15: W/2",
+                       config="s,e,parse_qq,qq_depth_min.two")
+    elif what == "desc_bad_default_ns_kw":
+        d = pytrs.PLSSDesc("T154-R97 Sec 14: NE/4", config="e",
+                           wait_to_parse=True)
+        d.parse(default_ns="x", parse_qq=True)
+    elif what == "tract_parse_bad_depth":
+        t = pytrs.Tract("N/2NE/4, Lots 1, 1", trs="154s97e14", config="clean_qq")
+        t.parse(qq_depth_max="x", qq_depth_min=3)
+    elif what == "parse_tracts_bad_kw":
+        d = pytrs.PLSSDesc("T154N-R97W Sec 14: NE/4\nSec 15: Lots 1, 1")
+        d.parse_tracts(config="clean_qq,qq_depth.1", qq_depth_min="y")
+    elif what == "csv_bad_fp":
+        pytrs.PLSSDesc("T154N-R97W Sec 14: NE/4").tracts_to_csv(
+            ["trs"], "", "w")
+    elif what == "set_twprgesec_bad_ew":
+        pytrs.Tract("NE/4", config="s").set_twprgesec(1, 2, 3, default_ew="q")
 
 
 def _mc(pytrs):
@@ -424,6 +500,14 @@ def run(prior, probe, mc_between=None, with_prior=True, mc_script=None):
                         _v, obj = _run_probe_op(pytrs, op["probe"])
                         pool.append(obj)
                         bump("other_calls")
+                elif o == "bulk":
+                    if op["kind"] == "trs":
+                        pytrs.TRSList([f"{1 + j % 150}n{1 + j // 150}w{1 + j % 36:02d}"
+                                       for j in range(op["n"])])
+                    else:
+                        for j in range(op["n"]):
+                            pytrs.Tract("NE/4", trs=f"{1 + j % 150}s{1 + j // 150}e01")
+                    bump("bulk_objects", op["n"])
                 elif o == "prewarm":
                     for s in op["strings"]:
                         if op["via"] == "TRS":
@@ -462,6 +546,9 @@ def run(prior, probe, mc_between=None, with_prior=True, mc_script=None):
                         rec = _extract_record(pytrs, src, op["how"])
                         _deep_mutate(rec)
                         bump("mutations")
+                        if op["how"] % 3 == 0:
+                            if _mutate_config_of(pytrs, src, op["how"]):
+                                bump("config_objects_edited")
                         after = [enc(x, ctx, full=True) for x in pool]
                         for j, (b, a) in enumerate(zip(before, after)):
                             if pool[j] is src and isinstance(
